@@ -95,6 +95,7 @@ type gen struct {
 	gmods       []*gmod
 	twins       int
 	depthParams map[string]bool
+	tryDepths   map[int]int
 	Top         []string   // top-level statements
 	TopVars     [][]string // names readable after the i-th top-level statement (non-function, non-module)
 	features    map[string]bool
@@ -103,6 +104,11 @@ type gen struct {
 	// call no function, so that an assignment cannot double its target
 	// (exponential growth inside loops).
 	noGrow bool
+	// noVars: while set, expressions reference no variable at all. Used for the value stored into an element of an
+	// array or map: declared types are only guesses, two variables may name one container, and a container that
+	// (indirectly) holds itself sends every recursive operation of ugo on it - String, Equal, Copy, the encoders -
+	// into unbounded recursion, which is a fatal stack overflow of the process (see DESIGN.md 8.7).
+	noVars bool
 	// exclude names a variable that expressions must not reference at the moment
 	exclude string
 }
@@ -112,6 +118,20 @@ func newGen(t *sim.Tape, c genConfig) *gen {
 		c.MaxStmts = 10
 	}
 	return &gen{t: t, cfg: c, scopes: [][]gvar{nil}, features: map[string]bool{}}
+}
+
+// tryBlock is block() for the body of a try, catch or finally clause. In uGO the three clauses of one try statement
+// share a single scope: a name declared in the try body is the same variable in the catch and finally clauses (unset,
+// or holding whatever last lived in its slot, when the declaration was not reached). The generator keeps its own
+// per-clause scopes, which is only right as long as such a declaration never takes the name of an outer variable.
+func (g *gen) tryBlock(n, lvl int) string {
+	d := len(g.scopes) + 1
+	if g.tryDepths == nil {
+		g.tryDepths = map[int]int{}
+	}
+	g.tryDepths[d]++
+	defer func() { g.tryDepths[d]-- }()
+	return g.block(n, lvl)
 }
 
 func (g *gen) push() { g.scopes = append(g.scopes, nil) }
@@ -128,6 +148,9 @@ func (g *gen) fresh(prefix string) string {
 
 // vars returns visible variables of type t (innermost first).
 func (g *gen) vars(t typ) []gvar {
+	if g.noVars {
+		return nil
+	}
 	var out []gvar
 	seen := map[string]bool{}
 	for i := len(g.scopes) - 1; i >= 0; i-- {
@@ -168,6 +191,14 @@ func (g *gen) modVars() []gvar {
 		}
 	}
 	return out
+}
+
+// exprNoVars is expr with noVars set (values stored into container elements).
+func (g *gen) exprNoVars(t typ, d int) string {
+	save := g.noVars
+	g.noVars = true
+	defer func() { g.noVars = save }()
+	return g.expr(t, d)
 }
 
 func (g *gen) pickVar(t typ) (gvar, bool) {
@@ -559,7 +590,7 @@ func (g *gen) stmt(lvl int) string {
 	case 1: // define
 		t := typ(g.t.Draw(int(tErr)))
 		name := g.fresh("v")
-		if len(g.scopes) > 1 && g.t.Bool(1, 8) {
+		if len(g.scopes) > 1 && g.t.Bool(1, 8) && g.tryDepths[len(g.scopes)] == 0 {
 			// a new variable of an inner scope that takes the name of a variable or constant of an outer scope
 			if outer := g.vars(tAny); len(outer) > 0 {
 				name = outer[g.t.Draw(len(outer))].name
@@ -598,8 +629,12 @@ func (g *gen) stmt(lvl int) string {
 		case v.t == tArr && g.t.Bool(1, 2):
 			// guarded: an ill-typed assignment may have put a map here, and an index
 			// assignment would give it a second key (map printing order is unspecified)
+			g.noVars = true
+			defer func() { g.noVars = false }()
 			return ind(lvl) + "if isArray(" + v.name + ") { " + v.name + "[" + fmt.Sprint(g.t.Draw(3)) + "] = " + g.expr(tInt, 2) + " }\n"
 		case v.t == tMap && g.t.Bool(1, 2):
+			g.noVars = true
+			defer func() { g.noVars = false }()
 			return ind(lvl) + v.name + ".k = " + g.expr(tAny, 2) + "\n"
 		}
 		return ind(lvl) + v.name + " = " + g.expr(v.t, 3) + "\n"
@@ -657,7 +692,7 @@ func (g *gen) stmt(lvl int) string {
 		return ind(lvl) + name + " := " + lit + "\n"
 	case 7: // try
 		var sb strings.Builder
-		sb.WriteString(ind(lvl) + "try {\n" + g.block(1+g.t.Draw(2), lvl+1))
+		sb.WriteString(ind(lvl) + "try {\n" + g.tryBlock(1+g.t.Draw(2), lvl+1))
 		if g.t.Bool(1, 3) {
 			sb.WriteString(ind(lvl+1) + "throw " + g.expr([]typ{tStr, tErr, tInt}[g.t.Draw(3)], 1) + "\n")
 		}
@@ -673,11 +708,11 @@ func (g *gen) stmt(lvl int) string {
 			if g.cfg.Hosts && !g.cfg.NoTrace && !g.inModule && g.t.Bool(1, 2) {
 				sb.WriteString(ind(lvl+1) + "log(trace(" + e + "))\n")
 			}
-			sb.WriteString(g.block(g.t.Draw(2), lvl+1))
+			sb.WriteString(g.tryBlock(g.t.Draw(2), lvl+1))
 			g.pop()
 		}
 		if !hasCatch || g.t.Bool(1, 2) {
-			sb.WriteString(ind(lvl) + "} finally {\n" + g.block(1, lvl+1))
+			sb.WriteString(ind(lvl) + "} finally {\n" + g.tryBlock(1, lvl+1))
 		}
 		sb.WriteString(ind(lvl) + "}\n")
 		return sb.String()
@@ -740,7 +775,7 @@ func (g *gen) shareStmt(lvl int) string {
 		return in + "try {\n" + in + "\tthrow " + g.strLit() + "\n" + in + "} catch " + e + " {\n" + in + "\tlog(trace(" + e + "), sprintf(\"%+v\", " + e + "))\n" + in + "}\n"
 	case 2: // write to a builtin-module value, read it back
 		m := g.fresh("m")
-		return in + m + " := import(\"host\")\n" + in + m + ".arr[" + fmt.Sprint(g.t.Draw(3)) + "] = len(WID) * " + fmt.Sprint(1+g.t.Draw(9)) + "\n" + in + m + ".map[WID] = " + g.expr(tInt, 1) + "\n" + in + "log(" + m + ".arr, " + m + ".map)\n"
+		return in + m + " := import(\"host\")\n" + in + m + ".arr[" + fmt.Sprint(g.t.Draw(3)) + "] = len(WID) * " + fmt.Sprint(1+g.t.Draw(9)) + "\n" + in + m + ".map[WID] = " + g.exprNoVars(tInt, 1) + "\n" + in + "log(" + m + ".arr, " + m + ".map)\n"
 	case 3: // error inside a generated module, if any
 		if len(g.gmods) > 0 {
 			m := g.gmods[g.t.Draw(len(g.gmods))]
@@ -779,12 +814,12 @@ func (g *gen) importStmt(lvl int) string {
 			s += ind(lvl) + "log(" + name + ".bump(), " + name + ".state.n)\n"
 		}
 		if g.t.Bool(1, 2) {
-			s += ind(lvl) + name + ".arr[" + fmt.Sprint(g.t.Draw(3)) + "] = " + g.expr(tInt, 1) + "\n"
+			s += ind(lvl) + name + ".arr[" + fmt.Sprint(g.t.Draw(3)) + "] = " + g.exprNoVars(tInt, 1) + "\n"
 			s += ind(lvl) + "log(" + name + ".arr, " + name + ".map, " + name + ".nzero, " + name + ".str)\n"
 		}
 		if g.t.Bool(1, 3) {
 			// a SyncMap attribute: read, written and read again (every VM has its own copy)
-			s += ind(lvl) + "log(" + name + ".sync.a)\n" + ind(lvl) + name + ".sync.a = " + g.expr(tInt, 1) + "\n" + ind(lvl) + "log(" + name + ".sync.a, len(" + name + ".emap), len(" + name + ".esync))\n"
+			s += ind(lvl) + "log(" + name + ".sync.a)\n" + ind(lvl) + name + ".sync.a = " + g.exprNoVars(tInt, 1) + "\n" + ind(lvl) + "log(" + name + ".sync.a, len(" + name + ".emap), len(" + name + ".esync))\n"
 		}
 		if g.t.Bool(1, 3) {
 			s += ind(lvl) + "log(" + name + "[\"\"], " + name + ".errA, " + name + ".errB, " + name + ".rterr, " + name + ".bytes, " + name + ".char, " + name + ".uint)\n"
